@@ -17,7 +17,7 @@ META = {
              'Declarations outside the family are covered only by the structural rules.',
     'technique': 'static_assert layout witness evaluated by clang + static store/return-shape and argument rules over clang AST/CFG facts',
 }
-FAMILY = ['srv_values', 'srv_layout', 'srv_one_cccd', 'srv_prio', 'srv_nine', 'srv_mixin', 'srv_includes']
+FAMILY = ['srv_values', 'srv_layout', 'srv_one_cccd', 'srv_prio', 'srv_nine', 'srv_mixin', 'srv_includes', 'srv_pinned']
 INCLUDES = [('srv_includes', 'inc_target_a'), ('srv_includes', 'inc_target_b'), ('srv_layout', 'svc_secondary')]
 
 
